@@ -66,6 +66,28 @@ func newCA(cn string) *CA {
 	return &CA{cert, key, pool}
 }
 
+// sub creates an intermediate CA signed by ca.
+func (ca *CA) sub(cn string) *CA {
+	key, err := ecdsa.GenerateKey(elliptic.P256(), rand.Reader)
+	if err != nil {
+		panic(err)
+	}
+	serial++
+	tmpl := &x509.Certificate{
+		SerialNumber: big.NewInt(serial), Subject: pkix.Name{CommonName: cn}, NotBefore: notBefore, NotAfter: notAfter,
+		IsCA: true, BasicConstraintsValid: true, KeyUsage: x509.KeyUsageCertSign | x509.KeyUsageDigitalSignature,
+	}
+	der, err := x509.CreateCertificate(rand.Reader, tmpl, ca.Cert, &key.PublicKey, ca.Key)
+	if err != nil {
+		panic(err)
+	}
+	cert, _ := x509.ParseCertificate(der)
+	pool := x509.NewCertPool()
+	pool.AddCert(cert)
+
+	return &CA{cert, key, pool}
+}
+
 var serial int64 = 100
 
 func (ca *CA) leaf(cn string, dns []string, key crypto.Signer, nb, na time.Time, usage []x509.ExtKeyUsage) tls.Certificate {
@@ -132,6 +154,22 @@ func GetCreds() *Creds {
 		cm := c.leaves["client-ecdsa"]
 		cm.PrivateKey = c.leaves["ecdsa2"].PrivateKey
 		c.leaves["client-mismatch"] = cm
+		// chain shapes: the leaf alone (root not sent) and a leaf issued by an intermediate
+		// (chain = leaf + intermediate, root not sent); both verify against CA1.
+		shape := func(name, base string) {
+			l := c.leaves[base]
+			l.Certificate = l.Certificate[:1:1]
+			c.leaves[name] = l
+		}
+		shape("ecdsa-leafonly", "ecdsa")
+		shape("client-ecdsa-leafonly", "client-ecdsa")
+		inter := c.CA1.sub("verif intermediate CA")
+		il := inter.leaf(ServerName, srv, ec(), notBefore, notAfter, both)
+		il.Certificate = [][]byte{il.Certificate[0], inter.Cert.Raw}
+		c.leaves["ecdsa-inter"] = il
+		cl := inter.leaf("client", nil, ec(), notBefore, notAfter, both)
+		cl.Certificate = [][]byte{cl.Certificate[0], inter.Cert.Raw}
+		c.leaves["client-ecdsa-inter"] = cl
 		creds = c
 	})
 
